@@ -74,6 +74,8 @@ def nonempty_errors(F, rep, rule="EXIT"):
                     continue
                 bad.append((fn, c, "an empty vec![]"))
                 continue
+            if a.get("k") == "Path" and a.get("res") == "Local" and _bound_in_err_pattern(a["hid"], parents):
+                continue      # the error of another call handed on: non-empty by induction over this census
             fname = last(fn["_path"], 2)
             if fname == "order::recurse" and callee(a) and callee(a).endswith("Vec::new"):
                 continue      # the cycle report starts empty: CYCLE|order::recurse|cycle-list-non-empty
@@ -108,6 +110,29 @@ def nonempty_errors(F, rep, rule="EXIT"):
            "vectors returned under a not-empty test, and the cycle report" % n, None, sites=n)
     rep.floor(rule, "Err(<vector>) constructions", n, 60)
     c11.cycle_nonempty(F, rep, rule)
+
+
+def _bound_in_err_pattern(hid, parents):
+    """`match call() { .. Err(e) => .. Err(e) }` / `if let Err(e) = call()`: e is the error vector of the callee"""
+    from hir import pat_bindings, norm_path
+
+    def err_binds(p):
+        if not isinstance(p, dict):
+            return False
+        if p.get("k") == "TupleStruct" and (norm_path(p.get("path")) or "").endswith("Result::Err"):
+            return any(b["hid"] == hid for b in pat_bindings(p))
+        for key in ("pats",):
+            if any(err_binds(q) for q in p.get(key) or []):
+                return True
+        return any(err_binds(p.get(k_)) for k_ in ("pat", "sub") if isinstance(p.get(k_), dict))
+    for p_ in parents:
+        if p_.get("k") == "Match" and any(err_binds(a_["pat"]) for a_ in p_["arms"]):
+            return True
+        if p_.get("k") == "If":
+            c_ = peel(p_["c"])
+            if c_.get("k") == "LetCond" and err_binds(c_["pat"]):
+                return True
+    return False
 
 
 def exit_status(F, rep):
